@@ -1,6 +1,6 @@
 """C19 -- arithmetic kernel: translator-regenerated GenArith.v + theorems + differential run."""
 import os, subprocess, math
-from vlib import build, common
+from vlib import proc, build, common
 
 M64 = (1 << 64) - 1
 
@@ -89,6 +89,8 @@ def gen_cases(ctx):
                     continue
                 for s in range(1, mx + 1):
                     add('bucket', 'bucket', lt, pol, mx, s)
+                    if mx in (9, 64, 100):
+                        add('bucket', 'bucket_moved', lt, pol, mx, s); add('bucket', 'bucket_assigned', lt, pol, mx, s)
     return cases, classes
 
 
@@ -137,10 +139,10 @@ def oracle(fn, args, r):
         x, = args
         exp = (x - 1).bit_length()
         return None if r == exp else '%s(%d) should be %d, got %d' % (fn, x, exp, r)
-    if fn == 'bucket':
+    if fn in ('bucket', 'bucket_moved', 'bucket_assigned'):
         lt, pol, mx, s = args
         if r < s:
-            return 'bucket for size %d has node size %d < size (list type %d, policy %d)' % (s, r, lt, pol)
+            return 'bucket for size %d has node size %d < size (list type %d, policy %d%s)' % (s, r, lt, pol, {'bucket': '', 'bucket_moved': ', after move construction of the list array', 'bucket_assigned': ', after move assignment of the list array'}[fn])
         me = 1 if lt == 2 else 8
         if pol == 1 and r >= 2 * s and r > me:
             return 'log2 bucket for size %d has node size %d >= 2*size' % (s, r)
@@ -154,7 +156,7 @@ def run(ctx):
     exe = build.build_harness('arith', 'base', ['h_arith.cpp'], extra=['-fno-access-control'])
     cases, classes = gen_cases(ctx)
     inp = '\n'.join(fn + ''.join(' %x' % a for a in args) for fn, args in cases) + '\n'
-    r = subprocess.run([exe], input=inp, stdout=subprocess.PIPE, text=True)
+    r = proc.run([exe], input=inp, timeout=600)
     log = r.stdout
     if r.returncode != 0:
         ctx.tie_broken.append('arith harness exited with %d' % r.returncode)
